@@ -3,6 +3,7 @@ package c11
 
 import (
 	"context"
+	"encoding/binary"
 	"errors"
 	"fmt"
 	"io"
@@ -503,6 +504,7 @@ type lateConn struct {
 	*memnet.Conn
 	armed   atomic.Bool
 	holding atomic.Int64
+	acc     []byte // bytes read since armed (one reader goroutine)
 	closing chan struct{}
 	once    sync.Once
 }
@@ -510,8 +512,12 @@ type lateConn struct {
 func (l *lateConn) Read(p []byte) (int, error) {
 	n, err := l.Conn.Read(p)
 	if l.armed.Load() && n > 0 {
-		l.holding.Add(1)
-		<-l.closing
+		// only the Read that completes the response frame is held (the receiver reads the 8-byte header first)
+		l.acc = append(l.acc, p[:n]...)
+		if len(l.acc) >= 8 && len(l.acc) >= 8+int(binary.BigEndian.Uint32(l.acc[4:8])) {
+			l.holding.Add(1)
+			<-l.closing
+		}
 	}
 	return n, err
 }
